@@ -277,6 +277,7 @@ private:
     std::int64_t        timeout_before_update_us_ = 0, update_applied_local_us_ = -1;
     int                 directed_target_ = -1;          // device the application named last as target of directed advertising
     bool                raw_instant_pdu_sent_ = false;  // on this connection the central sent an instant based PDU with arbitrary content
+    unsigned            updates_on_connection_ = 0;
     bool                instant_passed_justified_ = false;  // an instant based PDU reached the peripheral at or after its instant (or one event before, for new timing)
 
     void activity();
@@ -341,6 +342,7 @@ inline void world::run( const sim::Plan& plan )
                 u.instant = c_.abs_counter + static_cast< std::uint64_t >( delta );
                 u.legal = delta >= 6 + c_.latency && delta < 32767;
                 u.tag = next_tag_++;
+                ++updates_on_connection_;
                 bytes params;
                 if ( u.kind == 0 )
                 {
@@ -629,7 +631,7 @@ inline void world::advertising_activity()
         app_procedure_started_local_us_ = -1; proc_watch_ = false; proc_watch_conn_update_ = false; last_proc_ending_pdu_local_us_ = -1; conn_update_applied_local_us_ = -1; last_app_procedure_call_local_us_ = -1; proc_ending_pdu_waits_for_instant_ = false; app_version_req_ = false; app_param_req_ = app_phy_req_ = 0;
         local_disconnect_requested_ = false;
         expected_close_reason_ = -1;
-        raw_instant_pdu_sent_ = false; instant_passed_justified_ = false; tx_starved_since_update_ = false; remote_terminate_reasons_.clear(); map_update_sent_ = false; update_applied_local_us_ = -1;
+        raw_instant_pdu_sent_ = false; instant_passed_justified_ = false; updates_on_connection_ = 0; tx_starved_since_update_ = false; remote_terminate_reasons_.clear(); map_update_sent_ = false; update_applied_local_us_ = -1;
         model_enc_ = model_enc_seen_ = false; enc_delivered_.clear(); enc_batch_.clear(); last_reported_enc_ = false; start_enc_req_seen_ = false; tx_session_legit_ = false; enc_started_this_event_ = false; rx_session_legit_ = prev_rx_enc_ = false; enc_legit_starts_ = enc_reported_ = 0; start_committed_ = false; prev_rx_enc_starts_ = r_.rx_enc_starts; changed_checked_ = rec_.changed_encrypted.size(); att_req_while_enc_.clear(); att_rsp_seen_ = false;
         reject_due_in_ = -1; legit_secret_writes_ = 0;
         if ( ll_.secret ) secret_snapshot_.assign( ll_.secret, ll_.secret + ll_.secret_size );
@@ -1625,7 +1627,8 @@ inline void world::after_callbacks( const char* )
                 if ( !c_.upd.active && !instants_applied && c_.upd.tag == 0 )
                     violate( "C21", "instant-passed-without-instant", "instant-passed-without-instant", "connection closed with Instant Passed although no instant based procedure was started" );
                 // the instant of an honest update was still ahead when the PDU arrived: giving the connection up is not "from the instant on"
-                else if ( !instant_passed_justified_ && !raw_instant_pdu_sent_ && c_.upd.tag > 0 && c_.upd.legal && !c_.sync_excused )
+                // (judged for the only update of a connection with an orderly central: an earlier update may have been handled late for reasons of its own)
+                else if ( !instant_passed_justified_ && !raw_instant_pdu_sent_ && c_.upd.tag > 0 && c_.upd.legal && !c_.sync_excused && !control_checks_excused_ && updates_on_connection_ == 1 )
                     violate( "C21", "instant-passed-premature", "instant-passed-premature kind=" + std::to_string( c_.upd.kind ), "connection closed with Instant Passed although the update (kind %d, instant %llu) reached the peripheral before its instant (event %llu now)",
                              c_.upd.kind, (unsigned long long)upd_instant_, (unsigned long long)c_.abs_counter );
             }
